@@ -119,7 +119,7 @@ PLAN = {
         quick=[COMPARE_Q],
     ),
     "C15": dict(
-        rule="every shape of <= 5 elements, node-subject nodes and decorated assertions, and their obscured variants: both walk modes (visit sequence with level, edge, parent), digests(k) for every k, the predicate lookup family for every simple value / predicate present, typed extraction for 12 types; basic accessors",
+        rule="every shape of <= 5 elements, node-subject nodes and decorated assertions, and their obscured variants: both walk modes (visit sequence with level, edge, parent), digests(k) for every k, the predicate lookup family for every simple value / predicate present, typed extraction for 12 types; basic accessors and their try_/as_/is_ forms; tree_format line by line; format() / format_flat() against the layout of the notation term (Queries!Notation)",
         quick=[QUERY_Q],
     ),
     "C16": dict(
